@@ -138,6 +138,7 @@ pub fn run(o: &Opts) -> Report {
     let special: Vec<(&str, &str)> = vec![("32A", "500101KWD1,234"), ("32A", "491231JPY1500"), ("32A", "991231CLF12,3456"), ("32A", "000229USD0,01"), ("30", "500101"), ("30", "491231"),
                    ("32B", "BHD0,001"), ("32B", "JPY1"), ("33B", "KWD999,999"), ("60F", "C500101KWD1000,123"), ("62F", "D491231JPY1000"), ("13D", "5001012359+1400"),
                    ("13D", "4912310000-1459"), ("11S", "103500101"), ("11R", "1034912311234123456"), ("61", "500101C5,NTRFNONREF"), ("71F", "JPY100"), ("34F", "KWDD1,001"),
+                   ("61", "2401020102D100,00NTRF//BANKREF01"), ("61", "240315D99,50NCHG"), ("61", "240315C1,NMSC\nSUPPLEMENTARY"),
                    ("13D", "6812312359+0000"), ("13D", "6901010000+0000"), ("32A", "681231USD1,00"), ("30", "681231"), ("30", "690101"), ("60F", "C681231USD1,00"), ("62F", "C690101USD1,00")];
     for &(t, c) in special.iter() {
         let v = pool.by_tag.entry(t.to_string()).or_default();
@@ -146,7 +147,11 @@ pub fn run(o: &Opts) -> Report {
         }
     }
     let per_type = if o.thorough() { 400 } else { 40 };
-    let envelopes: [(&str, &str); 3] = [("", ""), ("{3:{108:MUR12345}{121:180f1e65-90e0-44d5-a49a-92b55eb3025f}}", ""), ("{3:{113:URGT}{108:REF1}}", "{5:{CHK:123456789ABC}}")];
+    // the documented contents at their minimum / maximum component lengths as well (a component may legitimately be the empty
+    // string: the account-owner reference of 61, …): publishing must not lose or re-interpret those
+    mgen::add_spec_contents(&mut pool, &mut rng, if o.thorough() { 12 } else { 3 }, false);
+    let envelopes: [(&str, &str); 5] = [("", ""), ("{3:{108:MUR12345}{121:180f1e65-90e0-44d5-a49a-92b55eb3025f}}", ""), ("{3:{113:URGT}{108:REF1}}", "{5:{CHK:123456789ABC}}"),
+        ("{3:{108:}}", "{5:{CHK:123456789ABC}{TNG}}"), ("{3:{113:}{108:X}{119:}}", "{5:{PDE:}{DLM}}")];
     for &code in SUPPORTED.iter() {
         let Some(g) = grammars.get(&code) else { continue };
         let mut made = 0;
@@ -164,13 +169,16 @@ pub fn run(o: &Opts) -> Report {
                 }
             }
             let body = tok::render(&gm.chunks, "\n", false);
-            let (b3, b5) = envelopes[rng.below(3)];
+            let (b3s, b5s) = envelopes[rng.below(envelopes.len())];
+            // one envelope in three generated: any subset of the block-3 / block-5 tags in any order
+            let (gb3, gb5) = (crate::c10::gen_b3_text(&mut rng), crate::c10::gen_b5_text(&mut rng));
+            let (b3, b5): (&str, &str) = if tries % 3 == 0 { (&gb3, &gb5) } else { (b3s, b5s) };
             // every other message under generated headers (any terminal / branch code, input and output block 2 in all
             // their shapes): the JSON form of the headers must survive the round trip as well
             let text = if tries % 2 == 0 {
                 format!("{{1:F01BANKBEBBAXXX0000000000}}{{2:I{:03}BANKDEFFXXXXN}}{b3}{{4:\n{}\n-}}{b5}", code, body.trim_end_matches('\n'))
             } else {
-                format!("{{1:{}}}{{2:{}}}{b3}{{4:\n{}\n-}}{b5}", crate::c10::gen_b1(&mut rng), crate::c10::gen_b2(&mut rng, &format!("{code:03}")), body.trim_end_matches('\n'))
+                format!("{{1:{}}}{{2:{}}}{b3}{{4:\n{}\n-}}{b5}", crate::c10::gen_b1_loose(&mut rng), crate::c10::gen_b2_loose(&mut rng, &format!("{code:03}")), body.trim_end_matches('\n'))
             };
             let before = rep.evaluations;
             with_mt!(code, T => one::<T>(&mut rep, code, &text, &plugins, if b3.is_empty() { "plain" } else { "with-block3" }), ());
